@@ -438,6 +438,23 @@ let id_shadow st env : item list * env =
   let fv = mkv ~fcost:60 f t1 BFunc env.lvl in
   ([IFunc fd; let_ res (call f [lit st]); pr (ev res)], bindv (bind env fv) res TInt BLet)
 
+(* the shapes next to the known finding late-shadow-after-closure that DO compile: the later binding
+   of x sits in an inner block, and a binding of x that precedes the closure *)
+let id_shadow2 st env : item list * env =
+  let x = fresh st and f = fresh st and g = fresh st and h = fresh st and y = fresh st and res = fresh st in
+  flag st "shadow_probe2";
+  st.shadowing <- st.shadowing + 1;
+  let l1 = lit st in
+  let inner = EBlock [let_ x (bin Add (ev x) l1);                                (* inner block: binds x after g captured the parameter *)
+                      IFunc (fdef h [] TInt [IExpr (bin Mul (ev x) (ei 3))]);     (* binding precedes this closure *)
+                      IExpr (bin Add (call h []) (call g []))] in
+  let body = [IFunc (fdef g [] TInt [IExpr (bin Mul (ev x) (ei 2))]);
+              let_ y inner;
+              IExpr (bin Add (bin Mul (call g []) (ei 1000)) (bin Sub (ev y) (ev x)))] in
+  let fd = fdef f [(x, false, TInt)] TInt body in
+  let fv = mkv ~fcost:30 ~firstclass:true ~fvars:[false] f t1 BFunc env.lvl in
+  ([IFunc fd; let_ res (call f [lit st]); pr (ev res)], bindv (bind env fv) res TInt BLet)
+
 (* ---- aggregates ------------------------------------------------------------------------------------- *)
 let id_agg st env : item list * env =
   flag st "agg_probe";
@@ -566,4 +583,4 @@ let id_pipe st env : item list * env =
 
 let all = [ "id_pipe", id_pipe; "id_order", id_order; "id_alias", id_alias; "id_counter", id_counter; "id_adder", id_adder;
             "id_loopcap", id_loopcap; "id_reccap", id_reccap; "id_compose", id_compose; "id_catch", id_catch;
-            "id_shadow", id_shadow; "id_agg", id_agg; "id_tail", id_tail; "id_mutual", id_mutual ]
+            "id_shadow", id_shadow; "id_shadow2", id_shadow2; "id_agg", id_agg; "id_tail", id_tail; "id_mutual", id_mutual ]
